@@ -950,14 +950,17 @@ def strategy():
                 descs.append(pair_for_method(r, m)[0])
         else:
             descs = [mixed_call(r) for _ in range(draw(st.integers(2, 3)))]
-        total = sum(alone(d)[1] for d in descs)
-        pts = draw(st.lists(st.tuples(st.integers(1, max(total, 1)), st.integers(0, len(descs) - 1)), min_size=1, max_size=4))
+        # preemption points as fractions of the run (per million): what is drawn must not depend on how many steps the calls
+        # take in this process at this moment (caches warm up; a changed tree may take different paths on a second run)
+        pts = draw(st.lists(st.tuples(st.integers(1, 1000000), st.integers(0, len(descs) - 1)), min_size=1, max_size=4))
         return descs, sorted(set(pts))
     return case()
 
 
 def hyp_body(rec, v):
-    descs, sch = v
+    descs, fr = v
+    total = max(1, sum(alone(d)[1] for d in descs))
+    sch = sorted({(1 + (x * total) // 1000001, t) for x, t in fr})
     info, eff = check_schedule(rec, descs, sch, "hyp")
     rec.case("hyp", (json.dumps(descs, sort_keys=True), tuple(sch)) if eff else None)
 
